@@ -1047,7 +1047,123 @@ func c07Stalled(rng *rand.Rand) (viol string, exercised bool, err error) {
 	return
 }
 
+// c07CloseRace (child process, plain build): replies are delivered on four goroutines while
+// the caller closes the query. Whichever side wins, nothing may be sent on a closed stream (that
+// is a panic, which ends the child) and no node may appear twice.
+func c07CloseRace(outPath string, seed int64, trials int) {
+	rng := rand.New(rand.NewSource(seed))
+	type report struct {
+		Trials, Items int
+		Viols         []string
+		Done          bool
+	}
+	rep := report{}
+	write := func() {
+		b, _ := json.Marshal(rep)
+		_ = os.WriteFile(outPath, b, 0o644)
+	}
+	snet := simnet.New(seed)
+	nd, err := cluster.Start(snet, cluster.Opts{Name: "origin", IP: "10.0.0.1", Profile: "passive"})
+	if err != nil {
+		rep.Viols = append(rep.Viols, "setup: "+err.Error())
+		write()
+		return
+	}
+	defer nd.Close()
+	for trial := 0; trial < trials; trial++ {
+		params := nd.S.DefaultQueryParams()
+		params.RequestAck = true
+		params.Timeout = 30 * time.Second
+		qr, err := nd.S.Query("closerace", nil, params)
+		if err != nil {
+			continue
+		}
+		var lt uint64
+		var id uint32
+		for _, m := range nd.DrainBroadcasts() {
+			if len(m) > 0 && m[0] == wire.Query {
+				var q wire.MsgQuery
+				if wire.Decode(m[1:], &q) == nil && q.Name == "closerace" && q.LTime > lt {
+					lt, id = q.LTime, q.ID
+				}
+			}
+		}
+		seenAck, seenRsp := map[string]int{}, map[string]int{}
+		consumed := make(chan struct{})
+		go func() {
+			defer close(consumed)
+			ack, rsp := qr.AckCh(), qr.ResponseCh()
+			for ack != nil || rsp != nil {
+				select {
+				case a, ok := <-ack:
+					if !ok {
+						ack = nil
+					} else {
+						seenAck[a]++
+					}
+				case r, ok := <-rsp:
+					if !ok {
+						rsp = nil
+					} else {
+						seenRsp[r.From]++
+					}
+				}
+			}
+		}()
+		var start atomic.Bool
+		g := newBGroup()
+		for w := 0; w < 4; w++ {
+			from := fmt.Sprintf("p%d", w)
+			a := wire.Encode(wire.QueryResponse, &wire.MsgQueryResponse{LTime: lt, ID: id, From: from, Flags: 1})
+			r := wire.Encode(wire.QueryResponse, &wire.MsgQueryResponse{LTime: lt, ID: id, From: from, Payload: []byte("x")})
+			g.Go(func() {
+				for !start.Load() {
+				}
+				nd.NotifyMsg(a)
+				nd.NotifyMsg(r)
+				nd.NotifyMsg(a)
+			})
+		}
+		spin := rng.Intn(3000)
+		g.Go(func() {
+			for !start.Load() {
+			}
+			for k := 0; k < spin; k++ {
+				_ = start.Load()
+			}
+			qr.Close()
+		})
+		start.Store(true)
+		g.Wait()
+		<-consumed
+		rep.Trials++
+		for n, c := range seenAck {
+			rep.Items += c
+			if c > 1 {
+				rep.Viols = append(rep.Viols, fmt.Sprintf("trial %d: %d acks from %s", trial, c, n))
+			}
+		}
+		for n, c := range seenRsp {
+			rep.Items += c
+			if c > 1 {
+				rep.Viols = append(rep.Viols, fmt.Sprintf("trial %d: %d responses from %s", trial, c, n))
+			}
+		}
+		if trial%200 == 0 {
+			write()
+		}
+	}
+	rep.Done = true
+	write()
+}
+
 func TestC07(t *testing.T) {
+	if p := os.Getenv("VERIF_C07_CLOSERACE"); p != "" {
+		seed, _ := strconv.ParseInt(os.Getenv("VERIF_C07_SEED"), 10, 64)
+		n, _ := strconv.Atoi(os.Getenv("VERIF_C07_TRIALS"))
+		c07CloseRace(p, seed, n)
+		return
+	}
 	if p := os.Getenv("VERIF_C07_CHILD"); p != "" {
 		c07Child(t, p)
 		return
@@ -1073,6 +1189,60 @@ func TestC07(t *testing.T) {
 			}
 			if viol != "" {
 				r.Violation("reply-after-deadline/stalled-application", ci, viol, viol)
+			}
+		})
+		// close race: deliveries against the caller's Close, in child processes (a send on a closed
+		// stream is a panic)
+		tmpc, _ := os.MkdirTemp("", "c07cr")
+		defer os.RemoveAll(tmpc)
+		r.Cases("closerace", r.N(4, 40), 4, func(ci int, rng *rand.Rand) {
+			out := filepath.Join(tmpc, fmt.Sprintf("cr%d.json", ci))
+			errPath := out + ".stderr"
+			ef, _ := os.Create(errPath)
+			cmd := exec.Command(os.Args[0], "-test.run=^TestC07$", "-test.count=1", "-test.timeout=1200s")
+			env := []string{}
+			for _, kv := range os.Environ() {
+				if strings.HasPrefix(kv, "VERIF_RESULT=") || strings.HasPrefix(kv, "VERIF_CASE=") || strings.HasPrefix(kv, "VERIF_CARRY") {
+					continue
+				}
+				env = append(env, kv)
+			}
+			cmd.Env = append(env, "VERIF_C07_CLOSERACE="+out, fmt.Sprintf("VERIF_C07_SEED=%d", rng.Int63()), "VERIF_C07_TRIALS=1500")
+			cmd.Stdout, cmd.Stderr = ef, ef
+			runErr := cmd.Run()
+			ef.Close()
+			var rep struct {
+				Trials, Items int
+				Viols         []string
+				Done          bool
+			}
+			if b, err := os.ReadFile(out); err == nil {
+				_ = json.Unmarshal(b, &rep)
+			}
+			r.Eval(1)
+			r.Count("close_race_trials", rep.Trials)
+			r.Count("close_race_items_received", rep.Items)
+			for _, v := range rep.Viols {
+				r.Violation("close-race-duplicate", ci, v, v)
+			}
+			if !rep.Done {
+				eb, _ := os.ReadFile(errPath)
+				tail := eb
+				crashed := false
+				if i := bytes.Index(eb, []byte("fatal error:")); i >= 0 {
+					tail, crashed = eb[i:], true
+				} else if i := bytes.Index(eb, []byte("panic:")); i >= 0 {
+					tail, crashed = eb[i:], true
+				}
+				if len(tail) > 4000 {
+					tail = tail[:4000]
+				}
+				head := strings.SplitN(string(tail), "\n", 2)[0]
+				if crashed && bytes.Contains(tail, []byte("github.com/hashicorp/serf/serf.")) {
+					r.Violation("crash-close-race", ci, fmt.Sprintf("child process crashed inside serf while replies raced the caller's Close (after %d trials): %s", rep.Trials, head), string(tail))
+				} else {
+					r.Inconclusive(fmt.Sprintf("close-race child %d ended without a report (%v): %s", ci, runErr, head))
+				}
 			}
 		})
 		r.Finish("stalled-application rounds (plain build): an incoming query blocks on the application's full event channel across the deadline of the node's own query; replies handed over after the deadline must not be delivered when the application resumes", 0)
